@@ -537,7 +537,7 @@ class Location(Metadata):
 
     @latitude.setter
     def latitude(self, latitude: str):
-        latitude = Decimal(latitude)
+        latitude = Decimal(str(latitude))
         assert -90 <= latitude <= 90, "Latitude must be between -90 and 90 degrees."
         self.message.latitude = int(latitude * self.GPS_PRECISION)
 
@@ -548,7 +548,7 @@ class Location(Metadata):
 
     @longitude.setter
     def longitude(self, longitude: str):
-        longitude = Decimal(longitude)
+        longitude = Decimal(str(longitude))
         assert -180 <= longitude <= 180, "Longitude must be between -180 and 180 degrees."
         self.message.longitude = int(longitude * self.GPS_PRECISION)
 
